@@ -483,6 +483,7 @@ var osFuncs = map[string]string{
 	"WriteFile": "WriteFile", "Exit": "Exit", "Stat": "Stat", "File": "File",
 	"CreateTemp": "CreateTemp", "Rename": "Rename", "Remove": "Remove", "TempDir": "TempDir",
 	"Getpid": "Getpid", "Getppid": "Getppid", "Hostname": "Hostname",
+	"SameFile": "SameFile",
 	"UserCacheDir": "UserCacheDir", "UserConfigDir": "UserConfigDir", "UserHomeDir": "UserHomeDir", "Getwd": "Getwd",
 	"MkdirAll": "MkdirAll", "Mkdir": "Mkdir",
 }
@@ -716,12 +717,23 @@ func (fc *fileCtx) visit(n ast.Node, parent ast.Node, d int) {
 				fc.replace(n.Pos(), n.End(), "simrt."+n.Sel.Name, d, false)
 				fc.markRewritten(local)
 				fc.count("context." + n.Sel.Name)
-			case "WithCancelCause", "WithTimeoutCause", "WithDeadlineCause", "AfterFunc":
+			case "WithCancelCause", "WithTimeoutCause", "WithDeadlineCause", "Cause":
+				fc.replace(n.Pos(), n.End(), "simrt."+n.Sel.Name, d, false)
+				fc.markRewritten(local)
+				fc.count("context." + n.Sel.Name)
+			case "AfterFunc":
 				fc.unsupported(n.Pos(), "context."+n.Sel.Name)
 			}
 		case "os/signal":
-			if n.Sel.Name == "NotifyContext" || n.Sel.Name == "Notify" {
-				fc.unsupported(n.Pos(), "signal."+n.Sel.Name)
+			switch n.Sel.Name {
+			case "NotifyContext":
+				fc.replace(n.Pos(), n.End(), "simrt.NotifyContext", d, false)
+				fc.markRewritten(local)
+				fc.count("signal.NotifyContext")
+			case "Notify", "Stop", "Ignore", "Reset":
+				fc.replace(n.Pos(), n.End(), "simrt.Signal"+n.Sel.Name, d, false)
+				fc.markRewritten(local)
+				fc.count("signal." + n.Sel.Name)
 			}
 		}
 	}
